@@ -299,6 +299,16 @@ def blueprint_text(spec):
             "            Tinput: 25.0\n            Thot: 450.0\n            id: 0.97\n            mult: fuel.mult\n            od: clad.id\n",
         )
         blocks_text = "custom isotopics:\n    liner iso:\n        input format: mass fractions\n        density: 6.5\n        ZR: 1.0\n" + blocks_text
+    if spec.get("voidgap") and not spec.get("pins") and not spec.get("liner"):
+        # a fuel slug that fills the cladding: the gap between them is a Void whose hot area is slightly
+        # negative (the slug has outgrown the cladding's bore) - armi allows that for a Void
+        blocks_text = _in_block(blocks_text, "    fuel: &block_fuel", "            mult: 169.0\n            od: 0.86\n", "            mult: 169.0\n            od: 0.9990\n")
+        blocks_text = _in_block(
+            blocks_text,
+            "    fuel: &block_fuel",
+            "            material: Sodium\n            Tinput: 450.0\n            Thot: 450.0\n            id: fuel.od\n",
+            "            material: Void\n            Tinput: 450.0\n            Thot: 450.0\n            id: fuel.od\n",
+        )
     if cart and spec.get("rect_duct"):
         # the fuel blocks' duct is the same square, declared as a Rectangle (a Square is a Rectangle
         # subclass; axial linkage is between components of identical type only)
